@@ -26,7 +26,8 @@ ADDRS = [("127.0.0.1", 0, "v4"), ("::1", 1, "v6"), ("::ffff:127.100.100.100", 1,
 SIZES = [0, 1, 2, 7, 100, 1023, 1024, 1025, 4095, 4096, 4097, 65535, 65536, 65537, 200000]
 CAUSES = [("fin", 22), ("rst", 13), ("H", 18), ("C", 15), ("T", 12), ("stay", 20)]
 CAUSE_NAME = {"fin": "peer-FIN", "rst": "peer-RST", "H": "server-shutdown", "C": "server-forceClose",
-              "T": "server-forceCloseWithDelay", "stay": "server-destroyed"}
+              "T": "server-forceCloseWithDelay", "stay": "server-destroyed", "stayfin": "server-destroyed-racing-peer-FIN",
+              "stayrst": "server-destroyed-racing-peer-RST"}
 
 # which failure kinds of the harness's oracle belong to which property ("crash"/"sanitizer": nothing can be judged)
 C01_KINDS = ("stream-",)
@@ -77,7 +78,7 @@ def _size(rng, big_left):
     return s
 
 
-def gen_scenario(rng):
+def gen_scenario(rng, race=False):
     """returns the scenario text lines (what the harness reads on stdin) and a summary dict for the histograms"""
     n = rng.choice([0, 1, 2, 3])
     addr, v6, akind = rng.choice(ADDRS)
@@ -85,11 +86,15 @@ def gen_scenario(rng):
     poll = rng.randrange(2)
     end = rng.choice(["quit", "inloop"])
     k = rng.choice([1, 2, 3, 4, 5, 6, 8, 12]) if rng.random() < 0.8 else rng.randrange(1, 13)
-    lines = ["server threads=%d addr=%s v6=%d port=%s poll=%d end=%s reuseport=%d" % (n, addr, v6, portmode, poll, end, 1 if rng.random() < 0.1 else 0)]
+    sndbuf = rng.choice([4096, 4096, 16384]) if rng.random() < 0.45 else 0
+    lines = ["server threads=%d addr=%s v6=%d port=%s poll=%d end=%s reuseport=%d sndbuf=%d" % (n, addr, v6, portmode, poll, end, 1 if rng.random() < 0.1 else 0, sndbuf)]
     big_left = [3]
     causes = []
     for i in range(k):
         cause = _pick(rng, CAUSES)
+        if race and cause == "stay":
+            # NOT in the default mix: a close in flight while ~TcpServer runs ("FIXME: unsafe" in TcpServer.cc)
+            cause = rng.choice(["stayfin", "stayrst", "stay"])
         causes.append(cause)
         steps = []
         nsteps = rng.randrange(0, 7)
@@ -193,7 +198,7 @@ def _flavours(ctx):
     return fl
 
 
-def explore(ctx, prop_id, n_quick=24, n_thorough=400, budget_quick=12.0, budget_thorough=220.0):
+def explore(ctx, prop_id, n_quick=24, n_thorough=2000, budget_quick=12.0, budget_thorough=220.0):
     """runs scenarios until the count or the effort budget (wall clock; it limits effort only, no verdict depends on it)
     is used up; appends at most one failure to ctx.oracle_failures"""
     flavours = _flavours(ctx)
@@ -224,6 +229,9 @@ def explore(ctx, prop_id, n_quick=24, n_thorough=400, budget_quick=12.0, budget_
         for c in info["causes"]:
             ctx.count("server:cause:" + CAUSE_NAME[c])
         ctx.count("server:result:" + status)
+        nb = sum(int(l.split("backlogged=")[1].split()[0]) for l in out.split("\n") if l.startswith("P ") and "backlogged=" in l)
+        if nb:
+            ctx.count("server:io-thread-sends-left-a-backlog", nb)
         case = _case(lines, flav)
         summary = [l for l in out.split("\n") if l.startswith("P ") or l.startswith("PASS")]
         ctx.record(case, [[lines[0]] + [l.split(" steps=")[1] for l in lines[1:]]], nontrivial=status == "PASS",
@@ -281,9 +289,10 @@ def replay(ctx, prop_id, path):
         print("[server/%s] attempt %d: %s %s" % (flavour, attempt, status, "; ".join("%s %s" % f for f in (mine or fails))[:400]))
         if mine:
             print("\n".join(l for l in out.split("\n") if l.startswith("T ") or l.startswith("P "))[-6000:])
-            tail = [l for l in err.strip().split("\n") if l.strip()][-6:]
-            if tail:
-                print("\n".join(tail))
+            said = [l.rstrip() for l in err.split("\n") if any(t in l for t in ("ERROR: AddressSanitizer", "SUMMARY:", "Assertion", "FATAL", "ThreadSanitizer", "FAIL "))
+                    or l.strip().startswith(("#0 ", "#1 ", "#2 ", "#3 "))]
+            if said:
+                print("\n".join(l[:300] for l in said[:24]))
             ctx.oracle_failures.append((case, "server:" + mine[0][0], mine[0][1] + " [replay attempt %d of 5, %s]" % (attempt, flavour)))
             return
         for nl in notes:
